@@ -523,7 +523,18 @@ def tcp_stream_table(chk: Check, repo: Repo, lbd: LowerBound) -> None:
     # 6. buffer ownership
     ws = [w for w in attr_writes(repo, "_buffer") if w.func.module.name.startswith("xknx.io.transport")]
     owners = sorted({w.func.qualname for w in ws})
-    chk.ob("tcp-buffer-owner", fi.site(), set(owners) <= {"TCPTransport.__init__", "TCPTransport.data_received_callback"} and "TCPTransport.data_received_callback" in owners, f"writers of `_buffer`: {owners}", key="tcp|buffer-owners")
+    resets = [w for w in ws if w.func.qualname in ("TCPTransport.connect", "TCPTransport.stop", "TCPTransport._connection_lost") and isinstance(w.stmt, ast.Assign) and isinstance(w.stmt.value, ast.Constant) and w.stmt.value.value == b""]
+    other = [w for w in ws if w not in resets]
+    chk.ob("tcp-buffer-owner", fi.site(), {w.func.qualname for w in other} <= {"TCPTransport.__init__", "TCPTransport.data_received_callback"} and "TCPTransport.data_received_callback" in owners, f"writers of `_buffer`: {owners} (besides the stream loop only empty resets in __init__ / connect / stop)", key="tcp|buffer-owners")
+    # the remainder kept for the next chunk belongs to ONE connection: the transport object is reused by reconnects, so
+    # connect() empties the buffer before the new connection can deliver anything
+    con = repo.func("xknx.io.transport.tcp_transport", "TCPTransport.connect")
+    chk.unit(con)
+    ccfg = CFG(con.node)
+    rs = [n.id for n in ccfg.nodes if n.kind == "stmt" and isinstance(n.ast, ast.Assign) and ast.unparse(n.ast.targets[0]) == "self._buffer" and isinstance(n.ast.value, ast.Constant) and n.ast.value.value == b""]
+    opens = [n.id for n in ccfg.nodes if n.ast is not None and n.kind == "stmt" and any(isinstance(x, ast.Call) and call_name(x).endswith("create_connection") for x in ast.walk(n.ast))]
+    ok = len(opens) == 1 and any(ccfg.dominates(r, opens[0]) for r in rs)
+    chk.ob("tcp-stream-starts-empty-on-every-connection", con.site(), ok, "TCPTransport.connect() empties the stream buffer before it opens the connection" if ok else "TCPTransport.connect() keeps what the previous connection left in the stream buffer (the transport object is reused by reconnects): the cut-off frame of a lost connection is glued onto the first octets of the new stream — a frame the server never sent is delivered and the frames that follow are lost or shifted", key="tcp|buffer-reset-on-connect")
 
 
 def header_length_readable(chk: Check, repo: Repo) -> None:
